@@ -239,7 +239,10 @@ func (c *httpsCloner) putKV(kv dns.SVCBKeyValue) {
 // putIPs returns the underlying arrays of ips into c if possible.
 func (c *httpsCloner) putIPs(ips []net.IP) {
 	for _, ip := range ips {
-		if cap(ip) >= 16 {
+		// Only take the arrays that are not a part of a larger buffer.  For
+		// example, the hints of an unpacked message are subslices of a single
+		// buffer, and the arrays made of those overlap.
+		if cap(ip) == 16 {
 			c.ip.Put((*[16]byte)(ip[:16]))
 		}
 	}
